@@ -58,7 +58,7 @@ func (d *driver) pick() (ev event, ok bool) {
 		if d.cstate == "logout" || len(d.pending) >= maxPending {
 			return ev, false
 		}
-		kinds := []string{"NOOP", "LOGIN", "SELECT", "UNSELECT", "STATUS", "LIST", "SEARCH", "FETCH", "EXPUNGE", "LOGOUT"}
+		kinds := []string{"NOOP", "LOGIN", "SELECT", "UNSELECT", "STATUS", "LIST", "SEARCH", "ESEARCH", "ESEARCH", "FETCH", "EXPUNGE", "LOGOUT"}
 		k := kinds[r.Intn(len(kinds))]
 		if k == "LOGOUT" && r.Intn(10) != 0 {
 			k = "NOOP"
@@ -90,6 +90,13 @@ func (d *driver) pick() (ev event, ok bool) {
 					return ev, false
 				}
 			}
+		case "ESEARCH":
+			if d.pendingOf("SEARCH") != nil {
+				return ev, false
+			}
+		}
+		if k == "SEARCH" && d.pendingOf("ESEARCH") != nil {
+			return ev, false
 		}
 		if stateChanging(k) && len(d.pending) > 0 {
 			return ev, false
@@ -187,7 +194,21 @@ func (d *driver) pick() (ev event, ok bool) {
 		p.items++
 		ev.Act, ev.N1 = "Search", 1+r.Intn(maxNum)
 		return ev, true
-	case x < 75: // CLOSED
+	case x < 76: // ESEARCH: any pending one, whatever its position
+		var cands []*pendT
+		for _, p := range d.pending {
+			if p.kind == "ESEARCH" && p.items == 0 {
+				cands = append(cands, p)
+			}
+		}
+		if len(cands) == 0 {
+			return ev, false
+		}
+		p := cands[r.Intn(len(cands))]
+		p.items++
+		ev.Act, ev.N1, ev.N2 = "Esearch", 1+r.Intn(maxNum), p.id
+		return ev, true
+	case x < 78: // CLOSED
 		if d.cstate != "selected" || !sel {
 			return ev, false
 		}
@@ -252,6 +273,7 @@ type recT struct {
 	S1  string  `json:"s1"`
 	S2  string  `json:"s2"`
 	N1  int     `json:"n1"`
+	N2  int     `json:"n2"`
 	Obs *recObs `json:"obs,omitempty"`
 }
 
@@ -335,7 +357,7 @@ func cmdRandom(path string, rng *rand.Rand, traces, steps int) {
 			if got.Uni != nil {
 				ro.Uni = got.Uni
 			}
-			enc.Encode(recT{Ev: ev.Act, S1: ev.S1, S2: ev.S2, N1: ev.N1, Obs: ro})
+			enc.Encode(recT{Ev: ev.Act, S1: ev.S1, S2: ev.S2, N1: ev.N1, N2: ev.N2, Obs: ro})
 			total++
 			if w.dead {
 				break
